@@ -39,7 +39,7 @@ CONFIGS = {
     "MC_Cancel": dict(CfgSet="BindCfgs", Openers='{"A", "B"}', MaxOpens=1, Binders='{"A"}', MaxBinds=1, Cancellers='{"A"}', MaxWrites=0, MaxHandles=2, MaxCtr=3, Ids="{1, 2}"),
     # C11: datagram bursts against small buffers, interleaved with a stream
     "MC_Dgram_q": dict(CfgSet="DgCfgs", DgSenders='{"A", "B"}', MaxDgrams=2, MaxWrites=1, MaxCtr=5, MaxOpens=1, MaxHandles=1),
-    "MC_Dgram": dict(CfgSet="DgCfgs", DgSenders='{"A", "B"}', MaxDgrams=3, MaxWrites=2, MaxCtr=7, MaxOpens=1, MaxHandles=1),
+    "MC_Dgram": dict(CfgSet="DgCfgs", DgSenders='{"A", "B"}', MaxDgrams=3, MaxWrites=1, MaxCtr=7, MaxOpens=1, MaxHandles=1),
     # C15: bind requests, every answer
     "MC_Bind_q": dict(CfgSet="BindCfgs", Binders='{"A"}', MaxBinds=2, MaxCtr=3, MaxOpens=1, MaxWrites=0, MaxHandles=1, Ids="{1, 2}"),
     "MC_Bind": dict(CfgSet="BindCfgs", Binders='{"A", "B"}', MaxBinds=2, MaxCtr=3, MaxOpens=0, Ids="{1, 2}"),
